@@ -16,6 +16,7 @@ Floats == {MkDy(0, 0), MkDy(1, -1), MkDy(-1, -1), MkDy(1, 0), MkDy(3, -1), MkDy(
            MkDy(2147483647, 0), MkDy(1, 53), MkDy(1, -1074), MkDy(1, 1023), MkDy(-1, 1023), NaN, PInf, NInf}
 Alpha == {97, 98}
 Strs == {<<>>} \cup {<<x>> : x \in Alpha \cup {233}} \cup {<<x, y>> : x \in Alpha, y \in Alpha} \cup {<<97, 97, 98>>, <<97, 98, 98>>, <<98, 97, 97>>}
+        \cup {<<233, 97>>, <<233, 98>>, <<234>>}          \* a multi-byte character in the common prefix: positions are characters, not bytes
 Bys == {<<>>, <<1>>, <<2>>, <<1, 1>>, <<1, 2>>, <<2, 1>>, <<255>>, <<1, 2, 3>>}
 Numbers == IF SIZE = "small" THEN {I(-2147483647 - 1), I(-1), I(0), I(1), I(16777217), I(2147483647), MkDy(0, 0), MkDy(1, -1), MkDy(16777217, 0), MkDy(1, 24), MkDy(1, 31), MkDy(-1, 31), MkDy(1, 1023), NaN, PInf}
            ELSE Ints \cup Floats
